@@ -43,6 +43,7 @@ LEVEL["decided"] += ' (R08.7) inside the block every tool leaves a shared iterat
 LEVEL["decided"] += ' (R08.9) a groupby group the parent has moved past leaves the shared iterator alone (R16.1, shared); (R08.10) a finishing tee child unregisters its own buffer by identity (R04.5, shared).'
 LEVEL["decided"] += ' (R08.11) no argument of a tool is singled out by its type or length (R03.2, shared).'
 LEVEL["technique"] += '; tool tables shared'
+LEVEL["decided"] += ' R08.7 compares the order of requests and results as well (a tool that fetches the next item before it hands out the current one leaves the shared handle one item further); (R08.12) a tee child re-tests its buffer after waiting for the lock (R09.2, shared); R08.4 also: whether there is something to close is asked of aiter(iterable), not of the iterable.'
 
 CTX = "asynctools._ScopedAsyncIteratorContext"
 SCOPED = "asynctools._ScopedAsyncIterator"
